@@ -40,8 +40,16 @@ def apply_edits(seq, edits):
 def compatible(edits, strict):
     """ M2: reference ranges disjoint (U) and additionally not adjacent (L) """
     es = sorted(edits, key=lambda x: (x.rs, x.re))
+    chain = 0
     for a, b in zip(es, es[1:]):
         if strict:
+            if a.re == b.rs and a.cls == 'SNV' and b.cls == 'SNV' and chain == 0:
+                # two adjacent SNVs are merged into one MNV by the tool (default
+                # --max-adjacent-as-mnv 2): the haplotype carrying both is demanded; a run
+                # of three is not merged
+                chain = 1
+                continue
+            chain = 0
             if a.re >= b.rs:
                 return False
             # an indel may be re-expressed one base to the right by the tool (end
